@@ -95,6 +95,14 @@ def ReserveError : ReserveErrorT := .mk
 @[inline] def _root_.Nat.rs_checked_add {ρ} (a b : Nat) : M ρ (Option Nat) := pure (checkedAdd a b)
 @[inline] def _root_.Nat.rs_max {ρ} (a b : Nat) : M ρ Nat := pure (max a b)
 @[inline] def _root_.Nat.rs_min {ρ} (a b : Nat) : M ρ Nat := pure (min a b)
+/-- `a + b`, `a - b`, `a * b`, `a / b` on `usize` as the source writes them: a result outside `usize` is an alarm
+(Rust panics in debug builds and wraps in release builds; neither is ever intended) — never ℕ's truncation -/
+@[inline] def arith_add {ρ} (a b : Nat) : M ρ Nat := fun s => if a + b < USIZE then .next (a + b) s else .ub .arith
+@[inline] def arith_sub {ρ} (a b : Nat) : M ρ Nat := fun s => if b ≤ a then .next (a - b) s else .ub .arith
+@[inline] def arith_mul {ρ} (a b : Nat) : M ρ Nat := fun s => if a * b < USIZE then .next (a * b) s else .ub .arith
+@[inline] def arith_div {ρ} (a b : Nat) : M ρ Nat := fun s => if 0 < b then .next (a / b) s else .ub .arith
+/-- `x as u8` / `as u16` / `as u32`: truncation -/
+@[inline] def cast_to {ρ} (bits : Nat) (x : Nat) : M ρ Nat := pure (x % 2 ^ bits)
 /-- `isize::MAX as usize` -/
 def isize_MAX : Nat := 2 ^ 63 - 1
 
